@@ -525,7 +525,7 @@ func specDisplay(maxLen int) seqmc.Spec {
 		shown := 0
 		cfg := &cli.Config{Display: func(b []byte) { shown++ }, DisplayType: dt, Count: 1, Timestamp: tm, Delimiter: "/", DisplayIndent: " ", ClientTypes: []string{"stub"}}
 		q := client.Query{Addrs: []string{"x"}, Target: "t", Type: qt, Queries: []client.Path{{"*"}}}
-		ctx, cancel := context.WithTimeout(context.Background(), 5*time.Second)
+		ctx, cancel := context.WithTimeout(context.Background(), 300*time.Second)
 		defer cancel()
 		var err error
 		guard("cli.QueryDisplay", &vs, func() string { return desc }, func() { err = cli.QueryDisplay(ctx, q, cfg) })
